@@ -23,3 +23,7 @@ def run(ctx, rep):
     r7 = rep.rule("phrases", "phrase list handed to the note builder is the track's own star-power event list, built in file order", floor=1)
     from .dispatch import check_track_sections
     check_track_sections(ctx, r7, which="instrument")
+    rch = rep.rule("chain", "file -> lines (read().splitlines(), utf-8-sig) -> framing -> section route -> dispatcher -> builders: every link "
+                            "hands the lines on unchanged", floor=10)
+    from .chain import check_chain
+    check_chain(ctx, rch, "instrument", strict=True)
